@@ -190,8 +190,8 @@ namespace {
     }
     const R KR = 1 / KRi, GR = 1 / GRi;
     // Ke(K*) = 1/sum f/(K*+K_i) - K*: the subtraction of K* loses (K*+Kmax)/Ke
-    const R slackK = 64 * u * (Kmax + 2 * Gmax) + 64 * u * std::fabs(sf - 1) * Kmax;
-    const R slackG = 64 * u * (Gmax + 2 * (Kmax + Gmax)) + 64 * u * std::fabs(sf - 1) * Gmax;
+    const R slackK = 256 * u * (Kmax + 2 * Gmax) + 64 * u * std::fabs(sf - 1) * Kmax;
+    const R slackG = 256 * u * (Gmax + 2 * (Kmax + Gmax)) + 64 * u * std::fabs(sf - 1) * Gmax;
     const std::string k = std::string("C25.hs.d") + std::to_string(d);
     c.check(KR <= KL + slackK, k + ".order", "Reuss > HS- (bulk): " + num(KR) + " vs " + num(KL));
     c.check(KL <= KU + slackK, k + ".order", "HS- > HS+ (bulk): " + num(KL) + " vs " + num(KU));
@@ -517,7 +517,7 @@ namespace {
       for (int i = 0; i < 3; ++i)
         for (int j = 0; j < 3; ++j) e[i * 6 + j] = (al - be) / 3;
       for (int i = 0; i < 6; ++i) e[i * 6 + i] += be;
-      cmp(c, toVec<3u>(S), e, 64 * u, "C25.eshelby.sphere", "alpha J + beta K");
+      cmp(c, toVec<3u>(S), e, 256 * u, "C25.eshelby.sphere", "alpha J + beta K");
     }
     // spheroid: aspect ratio e in 10^[-2,2], trace identity, continuity at e -> 1
     {
@@ -574,8 +574,13 @@ namespace {
     const bool spheroid = c.boolean("spheroid");
     Vec Plib, Alib, Pq;
     R ratio;
+    R spheroid_e = 1;
     if (spheroid) {
-      const double e = c.chance(1, 6, "sphere") ? 1. : c.log10real(-0.7, 0.7, "e");  // [0.2, 5]
+      // [0.2, 5], with the sphere and its neighbourhood as classes
+      const auto ecls = c.integer(0, 5, "e_class");
+      const double e = ecls == 0 ? 1.
+                                 : (ecls == 1 ? 1 + (c.boolean("below") ? -1 : 1) * c.log10real(-5, -2, "|e-1|")
+                                              : c.log10real(-0.7, 0.7, "e"));
       M3 Q;
       bool inclined;
       const V3d na = genAxis(c, Q, inclined);
@@ -583,6 +588,7 @@ namespace {
       c.tag(e == 1. ? "shape.sphere" : (e > 1 ? "shape.prolate" : "shape.oblate"));
       // e = (semi-axis along n_a) / (transverse semi-axis)
       ratio = std::max<R>(e, 1 / R(e));
+      spheroid_e = e;
       Pq = hillQuadrature(mu0, nu0, Q, e, 1, 1, quadOrder(ratio));
       Plib = toVec<3u>(computeAxisymmetricalHillPolarisationTensor<double>(m0.E, m0.nu, na, e));
       Alib = toVec<3u>(computeAxisymmetricalEllipsoidLocalisationTensor<double>(m0.E, m0.nu, mi.E, mi.nu, na, e));
@@ -607,8 +613,24 @@ namespace {
       Plib = toVec<3u>(computeHillPolarisationTensor<double>(m0.E, m0.nu, fr.na, a, fr.nb, b, cc));
       Alib = toVec<3u>(computeEllipsoidLocalisationTensor<double>(m0.E, m0.nu, mi.E, mi.nu, fr.na, a, fr.nb, b, cc));
     }
-    // P scales like 1/mu0
-    cmp(c, Plib, Pq, 1e-8L / mu0 / (1 - 2 * nu0 + 0.05L), "C25.hill.quadrature", "Hill tensor vs quadrature of the Green operator");
+    // P scales like 1/mu0.  Spheroid closed form: terms of size 1/(e^2-1)^2 cancel near e = 1, and the
+    // library returns the sphere tensor for |e-1| < EshelbyTolerances (1.5e-4 in double): |dS/de| < 1
+    R shape_err = 0;
+    bool sphere_substituted = false;
+    if (spheroid_e != 1) {
+      const R e21 = std::fabs(spheroid_e * spheroid_e - 1);
+      // q(e) is a difference of O(sqrt(e21)) terms divided by e21^(3/2), then multiplied by 1/e21:
+      // u / e21^2.5 (observed 5 u / e21^2.5 at e21 = 4e-4)
+      shape_err = 512 * u / (e21 * e21 * std::sqrt(e21));
+      if (std::fabs(spheroid_e - 1) < 2e-4L) {
+        shape_err += 2 * std::fabs(spheroid_e - 1);
+        sphere_substituted = true;
+        c.tag("shape.within_sphere_tolerance");
+      }
+    }
+    cmp(c, Plib, Pq, (1e-9L + shape_err) / mu0 / (1 - 2 * nu0 + 0.05L), "C25.hill.quadrature",
+        "Hill tensor vs quadrature of the Green operator");
+    if (sphere_substituted) return;  // A is built on the substituted sphere tensor: nothing more to claim
     // A:(I + P:(Ci - C0)) = I with the independent P
     Vec dC(36);
     for (int i = 0; i < 36; ++i) dC[i] = Ci[i] - C0[i];
@@ -617,7 +639,7 @@ namespace {
     Vec Minv;
     if (!ref::inverseN(6, M, Minv)) c.discard();
     const R cM = ref::matNormInf(6, M) * ref::matNormInf(6, Minv);
-    cmp(c, AM, identity(6), 1e-7L * cM, "C25.localisation.definition", "A:(I + P:(Ci-C0)) vs I");
+    cmp(c, AM, identity(6), (1e-7L + shape_err * normF(dC) / mu0) * cM, "C25.localisation.definition", "A:(I + P:(Ci-C0)) vs I");
   }
 
   // ------------------------------------------------------------------ zero fraction
@@ -629,7 +651,7 @@ namespace {
     const R tol = 8 * u * normF(C0r);
     const R K0 = m0.K(), G0 = m0.G();
     // conversions (E,nu) -> (K,G) -> (E,nu) inside the API: a few u with 1/(1-2nu) conditioning
-    const R ctol = 64 * u * (K0 + G0) / (1 - 2 * R(m0.nu));
+    const R ctol = 256 * u * (K0 + G0) / (1 - 2 * R(m0.nu));
     const double f = 0.;
     const double e = c.log10real(-2, 2, "aspect");
     M3 Q;
